@@ -90,6 +90,10 @@ class BasePlugin(object):
     def case_from_json(self, j):
         return from_jsonable(j)
 
+    def neighbours(self, case, rng):
+        """Variants of a disagreeing case, searched for a failing input when the tie is broken."""
+        return list(self.shrink(case))
+
     def extra_checks(self, rng, tier, seed):
         """Property-specific checks beyond the case stream; returns (violations, coverage)."""
         return [], {}
@@ -247,6 +251,31 @@ class BasePlugin(object):
                                              model=self.explain(small, so)))
         if len(mism_cases) > 3:
             result['mismatches'].append({'more': len(mism_cases) - 3})
+        if mism_cases and not viol_cases:
+            # the tie is broken but no generated case violates the property predicate:
+            # widen the search around the disagreeing cases (DESIGN.md 3.4)
+            near = []
+            for c, o, fl in mism_cases[:6]:
+                near += self.neighbours(c, rng)[:400]
+            for r in result['mismatches']:
+                if 'case' in r:
+                    try:
+                        near += self.neighbours(self.case_from_json(r['case']), rng)[:400]
+                    except Exception:  # noqa
+                        pass
+            near += [self.gen_case(rng, i, 'thorough') for i in range(n)]
+            try:
+                for c, o, fl in self.evaluate(near, tag='widen'):
+                    if fl is not None and self.is_violation(fl, known_mask):
+                        small = self.minimise(c, known_mask, 'p')
+                        so = self.run_impl(small)
+                        result['violations'].append(dict(
+                            self.describe(small, so), failing_clause='property predicate false on '
+                            'the implementation\'s outcome (found by the widened search)',
+                            flags=fl, model=self.explain(small, so)))
+                        break
+            except common.CoqRunError:
+                pass
         # known findings: replay each listed witness
         for k in known_entries:
             if k.get('status') != 'known' or 'witness' not in k:
